@@ -615,6 +615,8 @@ def check_C03(tier, seed):
         acc.edges += rb.get('runs', 0)
         acc.distinct += len(rb.get('events_by_kind', {}))
         for item in rb.get('violations', []):
+            if 'nested acquisition' in item['detail']:
+                continue        # C17's alarm
             v.add({'kind': 'predicate', 'key': 'C03/robust', 'detail': item['detail'], 'replay': item['replay']})
     return finish('C03', tier, seed, 'exploration', v, acc, t0,
                   'model-derived: TLC enumerates (reachable abstract state, boundary-class input) edges - correction fields {min, max, +-1 ns, +-1 unit, 0}, timestamps '
@@ -624,7 +626,123 @@ def check_C03(tier, seed):
                   COMMON_ASSUME + ['values inside a boundary class are sampled per seed', 'the nesting-detecting mutex stands in for RefCell/RwLock: an unwind inside a lock span is reported as poisoning'])
 
 
+
+# ------------------------------------------------------------------------------------------------ C17
+
+def pattern_ops(pat, who):
+    """'RRW[cpt]' -> list of TLA+ op tuples; a data set written in k spans of one operation gets field min(k,2) per span"""
+    import re
+    spans = re.findall(r'R|W\[[a-z]*\]', pat)
+    count = {}
+    for sp in spans:
+        if sp.startswith('W'):
+            for d in sp[2:-1]:
+                count[d] = count.get(d, 0) + 1
+    seen = {}
+    ops = []
+    for sp in spans:
+        if sp == 'R':
+            ops += ['<<"R+">>', '<<"R-">>']
+        else:
+            ops.append('<<"W+">>')
+            for d in sp[2:-1]:
+                if d not in 'cpt':
+                    continue
+                seen[d] = seen.get(d, 0) + 1
+                if count[d] == 1:
+                    ops += ['<<"w", "%s", 1, "%s">>' % (d, who), '<<"w", "%s", 2, "%s">>' % (d, who)]
+                else:
+                    ops.append('<<"w", "%s", %d, "%s">>' % (d, min(seen[d], 2), who))
+            ops.append('<<"W-">>')
+    return ops
+
+
+def lock_model(name, progs, expect=None, timeout=900):
+    """progs: dict thread -> list of op strings. Returns (violated list, stats)"""
+    d = outdir('cfg')
+    mod = 'MCLock_' + name.replace('-', '_')
+    body = ['---- MODULE %s ----' % mod, 'EXTENDS Lock', 'MCProg == ' + ' @@ '.join('("%s" :> <<%s>>)' % (t, ', '.join(ops)) for t, ops in progs.items()),
+            'MCData == {"c", "p", "t"}', '====']
+    open(os.path.join(d, mod + '.tla'), 'w').write('\n'.join(body) + '\n')
+    shutil.copy(os.path.join(SPECS, 'Lock.tla'), os.path.join(d, 'Lock.tla'))
+    cfg = os.path.join(d, mod + '.cfg')
+    open(cfg, 'w').write('SPECIFICATION Spec\nCONSTANTS\n  Prog <- MCProg\n  DataSets <- MCData\nINVARIANT AtomicSnapshot\nINVARIANT LockOK\nCHECK_DEADLOCK TRUE\n')
+    stats, text = run_tlc(mod + '.tla', cfg, 'C17-' + name, workers=8, timeout=timeout, cwd=d)
+    for f in (mod + '.tla', 'Lock.tla'):
+        try:
+            os.remove(os.path.join(d, f))
+        except OSError:
+            pass
+    shutil.rmtree(os.path.join(d, 'states'), ignore_errors=True)
+    stats['text_trace'] = vlib.extract_trace(text)
+    return stats
+
+
+def check_C17(tier, seed):
+    t0 = time.time()
+    build('dev')
+    v = Verdict('C17')
+    acc = Acc()
+    q = tier == 'quick'
+    # (i) every history explored runs over the nesting-detecting mutex: a few broad edge suites judged for C17 only
+    consts, w = INST_VARIANTS['A']
+    c = dict(INST_CONST); c.update(consts); c['WithQ'] = True
+    run_inst_suite('C17', v, acc, 'C17-inst', 'MCInst', c, w, 5 if q else 7, seed, [], ['C17'])
+    run_inst_suite('C17', v, acc, 'C17-slave', 'MCPort', port_consts(['sync', 'dresp', 'ts', 'tdreq', 'annP', 'bmca'], Prefix=('<-', 'PrefixSlave')), world(asym([e2e()])),
+                   6 if q else 8, seed, [], ['C17'])
+    fw = dict(INST_CONST); fw.update({'Fwd': True, 'WithOther': True, 'PCfg': ('<-', 'PCfg_2'), 'ListSet': '{1, 6, 8}', 'PathSet': '{1, 2}', 'PTrace': True})
+    run_inst_suite('C17', v, acc, 'C17-fwd', 'MCFwd', fw, world([e2e(), e2e()], fwd=True, ptrace=True), 4 if q else 5, seed, [], ['C17'])
+    # randomised calls with the acquisition pattern of every call recorded (which data sets each write span changed)
+    rb = run_driver('robust', ['--seed', str(seed), '--runs', '1500' if q else '20000', '--len', '200', '--lockpat'], 'C17-patterns', timeout=3000)
+    pats = {}
+    for opname, d in rb.get('lock_patterns', {}).items():
+        for pat, n in d.items():
+            pats.setdefault(pat, []).append(opname)
+    for item in rb.get('violations', []):
+        if 'nested acquisition' in item['detail']:
+            v.add({'kind': 'predicate', 'key': 'C17/nested', 'detail': item['detail'], 'replay': item['replay']})
+    acc.events += rb.get('calls', 0)
+    split = [p for p in pats if any(p.count(d) > 1 and sum(1 for sp in __import__('re').findall(r'W\[[a-z]*\]', p) if d in sp) > 1 for d in 'cpt')]
+    acc.suites.append({'suite': 'C17-patterns', 'driver': 'harness/src/bin/robust.rs --lockpat', 'calls': rb.get('calls'), 'distinct_patterns': sorted(pats.keys()),
+                       'operations_per_pattern': {p: sorted(o)[:8] for p, o in pats.items()}})
+    # (ii) the lock model, instantiated with the observed patterns
+    writers = sorted([p for p in pats if 'W[' in p and any(d in p for d in 'cpt')], key=lambda p: (-len(p), p))
+    readers_ = sorted([p for p in pats if p and 'W' not in p], key=lambda p: (-len(p), p))
+    port_w = [p for p in writers if p.startswith('R')] or ['RRW[cpt]']
+    inst_w = [p for p in writers if not p.startswith('R')] or ['W[cpt]']
+    progs = {
+        'port1': pattern_ops(port_w[0], 'a1') + pattern_ops(port_w[-1], 'a2'),
+        'port2': pattern_ops(readers_[0] if readers_ else 'RRR', 'b1')[:8] + pattern_ops(port_w[0], 'b2'),
+        'bmca': pattern_ops(inst_w[0], 'm1') + pattern_ops(inst_w[-1], 'm2'),
+        'obs': sum([['<<"R+">>', '<<"r", "%s", 1>>' % d, '<<"r", "%s", 2>>' % d, '<<"R-">>'] for d in 'pct'], []),
+    }
+    stats = lock_model('observed', progs)
+    acc.add('C17-lock-model', stats)
+    if stats['violated'] or stats['errors']:
+        pth = write_tlc_counterexample('C17', 'C17-lock-model', stats)
+        v.add({'kind': 'tlc', 'key': 'tlc:lock:' + ','.join(stats['violated'] or ['error']), 'detail': 'lock model with the observed acquisition patterns: %s' % (stats['violated'] or stats['errors'][:1]), 'replay': pth})
+    # negative controls: the model does find a nested read (deadlock) and a split update (torn snapshot)
+    ctl1 = lock_model('control-nested', {'port1': ['<<"R+">>', '<<"R+">>', '<<"R-">>', '<<"R-">>'], 'bmca': pattern_ops('W[cpt]', 'm1')})
+    ctl2 = lock_model('control-split', {'port1': ['<<"W+">>', '<<"w", "p", 1, "a1">>', '<<"W-">>', '<<"W+">>', '<<"w", "p", 2, "a1">>', '<<"W-">>'],
+                                         'obs': ['<<"R+">>', '<<"r", "p", 1>>', '<<"r", "p", 2>>', '<<"R-">>']})
+    controls_ok = bool(ctl1['violated']) and ('AtomicSnapshot' in ctl2['violated'])
+    if not controls_ok:
+        raise ToolError('lock model negative controls did not fail as expected: %s %s' % (ctl1['violated'], ctl2['violated']))
+    # (iii) real threads over the real RwLock
+    ls = run_driver('lockstress', ['--iters', '200000' if q else '3000000'], 'C17-lockstress', timeout=900)
+    acc.suites.append({'suite': 'C17-lockstress', 'driver': 'harness/src/bin/lockstress.rs', 'result': {k: ls[k] for k in ls if k != 'violations'}})
+    for item in ls.get('violations', []):
+        v.add({'kind': 'predicate', 'key': 'C17/stress', 'detail': item['detail'], 'replay': item['replay']})
+    return finish('C17', tier, seed, 'model_checking', v, acc, t0,
+                  EDGE_RULE + '; the lock model is instantiated with the acquisition patterns observed on the real calls (which data sets each write span changed)',
+                  COMMON_ASSUME + ['std::sync::RwLock behaves as a writer-preferring reader-writer lock (a reader is not admitted while a writer waits)',
+                                   'the recording mutex sees every acquisition (the library reaches the state only through PtpInstanceStateMutex)'],
+                  extra_cov={'negative_controls': {'nested_read_deadlocks': bool(ctl1['violated']), 'split_update_tears_snapshot': 'AtomicSnapshot' in ctl2['violated']},
+                             'patterns_with_a_data_set_written_in_two_spans': split})
+
+
 CHECKS = {
+    'C17': check_C17,
     'C03': check_C03,
     'C15': check_C15,
     'C12': check_C12,
